@@ -38,7 +38,10 @@ m = {
     'engines': [{'name': 'rocq-model+correspondence', 'path': 'coq/, harness/, lib/, check',
                  'serves_properties': sorted(CHECKS.keys()),
                  'kind_free_text': 'Coq 8.16 model and theorems (coq/), Rust harness running the implementation with hooks (harness/), '
-                                   'Python driver comparing implementation, model and specification (lib/, check)'}],
+                                   'Python driver comparing implementation, model and specification (lib/, check)'},
+                {'name': 'miri-observation', 'path': 'harness_miri/', 'serves_properties': ['C14'],
+                 'kind_free_text': 'observation only (not a proof): a multi-threaded program over the real crate run under cargo +nightly miri; '
+                                   'supports the part of C14 the protocol theorem cannot carry (data races, undefined behaviour)'}],
     'checks': checks,
     'not_applicable': na,
     'notes': 'See DESIGN.md. known_findings.json lists recorded defects and the fixed: entries.',
